@@ -476,7 +476,8 @@ fn twin_cat(s: &RSchema, id: Id) -> u32 {
 
 fn named_index(s: &RSchema, bs: &[Id], name: &str) -> Option<usize> {
 	// a name designates a branch when it is its documented branch name; a short name only when
-	// no branch has it as full name and exactly one branch has that short name
+	// no branch has it as full name and exactly one branch has that short name. A duration's branch name is
+	// "Duration": the name of the fixed it annotates is not kept by the frozen schema (recorded finding, C01 probe)
 	let mut idx: Vec<usize> = bs
 		.iter()
 		.enumerate()
@@ -487,7 +488,7 @@ fn named_index(s: &RSchema, bs: &[Id], name: &str) -> Option<usize> {
 		idx = bs
 			.iter()
 			.enumerate()
-			.filter(|(_, &b)| s.fullname(b).map_or(false, |f| split_fullname(f).1 == name && f != name))
+			.filter(|(_, &b)| s.fullname(b).map_or(false, |f| split_fullname(f).1 == name && f != name && s.branch_name(b) == f))
 			.map(|(i, _)| i)
 			.collect();
 	}
@@ -509,7 +510,7 @@ fn named_branch(s: &RSchema, bs: &[Id], name: &str, inner: &Call, o: &Opts) -> O
 		idx = bs
 			.iter()
 			.enumerate()
-			.filter(|(_, &b)| s.fullname(b).map_or(false, |f| split_fullname(f).1 == name && f != name))
+			.filter(|(_, &b)| s.fullname(b).map_or(false, |f| split_fullname(f).1 == name && f != name && s.branch_name(b) == f))
 			.map(|(i, _)| i)
 			.collect();
 	}
